@@ -419,7 +419,27 @@ func (g *c15gen) Statement() (string, string) {
 		c := g.fresh("cl")
 		g.put(g.rec.cols, c, "insert-columns")
 		g.put(g.rec.qcols, "/"+c, "insert-columns")
-		return w + "INSERT INTO " + t + " (" + c + ") " + g.subSelect(depth, true), "insert-select"
+		sql := w + "INSERT INTO " + t + " (" + c + ") " + g.subSelect(depth, true)
+		// the clauses that may follow the source query
+		switch g.r.Intn(4) {
+		case 0:
+			c1 := g.fresh("cl")
+			g.put(g.rec.cols, c1, "on-conflict-target")
+			g.put(g.rec.qcols, "/"+c1, "on-conflict-target")
+			sql += " ON CONFLICT (" + c1 + ") DO NOTHING"
+		case 1:
+			c1 := g.fresh("cl")
+			g.put(g.rec.cols, c1, "on-conflict-target")
+			g.put(g.rec.qcols, "/"+c1, "on-conflict-target")
+			c2 := g.fresh("cl")
+			g.put(g.rec.cols, c2, "on-conflict-set-target")
+			g.put(g.rec.qcols, "/"+c2, "on-conflict-set-target")
+			sql += " ON CONFLICT (" + c1 + ") DO UPDATE SET " + c2 + " = " + g.scalar("on-conflict-set-value", depth-1)
+		}
+		if g.r.Bool() {
+			sql += g.returning(depth - 1)
+		}
+		return sql, "insert-select"
 	case 6, 7:
 		t, _ := g.target("update-target")
 		g.scope = nil
